@@ -3,6 +3,11 @@
 import json, os
 here = os.path.dirname(os.path.dirname(os.path.abspath(__file__)))
 claims = json.load(open(os.path.join(here, "tools", "claims.json")))
+cd = os.path.join(here, "tools", "claims.d")
+if os.path.isdir(cd):
+    for f in sorted(os.listdir(cd)):
+        if f.endswith(".json"):
+            claims["claimed"][f[:-5]] = json.load(open(os.path.join(cd, f)))
 props = [json.loads(l)["id"] for l in open(os.path.join(here, "properties.jsonl"))]
 checks, na = [], []
 for p in props:
